@@ -1,6 +1,6 @@
 """Regenerates lean/TonVerif/Generated/WrapSrc.lean from the current source of the stand-alone wrappers of
 pytoniq_core/tlb/custom/wallet.py (WalletV3Data, WalletV4Data, HighloadWalletData, WalletMessage) and
-pytoniq_core/tlb/custom/nft.py (NftItemData, NftItemSaleFees, NftItemSaleData): the WHOLE `serialize` and `deserialize` methods and
+pytoniq_core/tlb/custom/nft.py (NftItemData, NftItemSaleFees, NftItemSaleData), pytoniq_core/tlb/utils.py (HashUpdate): the WHOLE `serialize` and `deserialize` methods and
 the CONSTRUCTORS (`__init__`: the `wallet_id is None` default, the `public_key is None` raise, the `isinstance(.., str)`
 conversions), with the TL-B codec translator pytlb.py (extended here: `WTr`, `WProgram`).
 
@@ -35,16 +35,18 @@ from .pyexpr import Untranslatable
 from .arith import write_if_changed, _lake_build
 from ..paths import REPO, LEAN
 
-WAL, NFT = 'pytoniq_core/tlb/custom/wallet.py', 'pytoniq_core/tlb/custom/nft.py'
+WAL, NFT, UTL = 'pytoniq_core/tlb/custom/wallet.py', 'pytoniq_core/tlb/custom/nft.py', 'pytoniq_core/tlb/utils.py'
 OUT = 'TonVerif/Generated/WrapSrc.lean'
 NS = 'TonVerif.Generated.WrapSrc'
 
 # ---- the declared interface (trusted; the value domain is the one of Spec/Tlb/Wrappers.lean)
 ADDR = 'Addr'
+HU = SEM('HashUpd')
 V3, V4, HL, WM, NI, FEES, SALE = SEM('WalletV3'), SEM('WalletV4'), SEM('Highload'), SEM('WalletMsg'), SEM('NftItem'), SEM('SaleFees'), SEM('SaleData')
 MSG = msgsrc.MSG
 SEMS = dict(msgsrc.SEMS)
 SEMS.update({
+    'HashUpd': dict(lean='HashUpd', ctors={'mk': [('old_hash', BYTES), ('new_hash', BYTES)]}),
     'WalletV3': dict(lean='WalletV3', ctors={'mk': [('seqno', INT), ('wallet_id', INT), ('public_key', BYTES)]}),
     # plugins / old_queries: the optional root cell of the dictionary (HashMap codec = C09 / C10)
     'WalletV4': dict(lean='WalletV4 R', ctors={'mk': [('seqno', INT), ('wallet_id', INT), ('public_key', BYTES), ('plugins', OPT(REF))]}),
@@ -60,6 +62,7 @@ SEMS.update({
 # per class: representation, constructor parameters with the types the translated call sites hand over (Optional where the
 # constructor tests `is None`)
 CLASSES = {
+    'HashUpdate': dict(file=UTL, repr=HU, ctor='mk', params=[('old_hash', BYTES), ('new_hash', BYTES)]),
     'WalletV3Data': dict(file=WAL, repr=V3, ctor='mk', params=[('seqno', INT), ('wallet_id', OPT(INT)), ('public_key', OPT(BYTES))]),
     'WalletV4Data': dict(file=WAL, repr=V4, ctor='mk', params=[('seqno', INT), ('wallet_id', OPT(INT)), ('public_key', OPT(BYTES)),
                                                               ('plugins', OPT(REF))]),
@@ -106,7 +109,7 @@ HL_STATIC = {
 CTX = {'opt': [('mk', 'Bits → List R → Option R')], 'sop': [('view', 'R → Bits × List R')]}
 
 HEAD = ['/- GENERATED by harness/translate/wrapsrc.py (pytlb.py) from the current source of',
-        f'   {WAL} (WalletV3Data, WalletV4Data, HighloadWalletData, WalletMessage), {NFT} (NftItemData, NftItemSaleFees, NftItemSaleData):',
+        f'   {WAL} (WalletV3Data, WalletV4Data, HighloadWalletData, WalletMessage), {NFT} (NftItemData, NftItemSaleFees, NftItemSaleData), {UTL} (HashUpdate):',
         '   the constructors (`<Class>_init`: `none` = raises), the whole serialize / deserialize methods; do not edit.',
         '   Serialisers: `Option (Built R)` (`none` = raises; `mk` = Builder.end_cell); deserialisers: `SOp R _` on the slice being consumed.',
         '   A dictionary (plugins, old_queries) is its optional root cell. -/',
@@ -302,7 +305,7 @@ def _builder_ops():
 
 
 def config():
-    trees = {f: ast.parse(open(os.path.join(REPO, f)).read()) for f in (WAL, NFT)}
+    trees = {f: ast.parse(open(os.path.join(REPO, f)).read()) for f in (WAL, NFT, UTL)}
     classes = {}
     for name, d in CLASSES.items():
         tree = trees[d['file']]
@@ -336,6 +339,9 @@ def config():
     imp = [ast.unparse(n) for n in trees[WAL].body if isinstance(n, (ast.Import, ast.ImportFrom))]
     if 'from ..transaction import MessageAny' not in imp or 'from ...boc import Cell, Builder, Slice, HashMap' not in imp:
         raise Untranslatable('wallet.py does not import MessageAny / Builder / Slice / HashMap from the expected modules')
+    imp = [ast.unparse(n) for n in trees[UTL].body if isinstance(n, (ast.Import, ast.ImportFrom))]
+    if 'from .. import Builder' not in imp or 'from ..boc import Slice, Cell, CellTypes' not in imp:
+        raise Untranslatable('utils.py does not import Builder / Slice from the expected modules')
     imp = [ast.unparse(n) for n in trees[NFT].body if isinstance(n, (ast.Import, ast.ImportFrom))]
     if 'from ...boc import Cell, Builder, Slice, HashMap, Address' not in imp:
         raise Untranslatable('nft.py does not import Builder / Slice / Address from the expected module')
@@ -391,7 +397,7 @@ def regenerate():
     text, info, lost = generate(old=old)
     changed = write_if_changed(path, text)
     h = hashlib.sha256(text.encode())
-    for f in (WAL, NFT, msgsrc.TX, msgsrc.ACC, msgsrc.BLK, 'pytoniq_core/boc/builder.py', 'pytoniq_core/boc/slice.py'):
+    for f in (WAL, NFT, UTL, msgsrc.TX, msgsrc.ACC, msgsrc.BLK, 'pytoniq_core/boc/builder.py', 'pytoniq_core/boc/slice.py'):
         h.update(open(os.path.join(REPO, f), 'rb').read())
     here = os.path.dirname(__file__)
     for f in (__file__, msgsrc.__file__, pytlb.__file__, pybytes.__file__, pybytes.pyarith.__file__, os.path.join(LEAN, 'TonVerif/PyTlb.lean'),
@@ -485,7 +491,7 @@ def optKey (s : String) : Option (Option Bytes) := if s == "-" then some none el
 /-- the library builds the object with the class constructor and then calls `serialize`: so does the regenerated side -/
 def genSer (w : Wr) : Option RCell :=
   match w with
-  | .hu h => Message.serializeHashUpd rops h
+  | .hu h => (HashUpdate_init h.oldHash h.newHash).bind fun o => (HashUpdate_serialize (R := RCell) mkCell o).map (·.cell)
   | .v3 w => (WalletV3Data_init w.seqno (some w.walletId) (some w.publicKey)).bind fun o => (WalletV3Data_serialize mkCell o).map (·.cell)
   | .v4 w => (WalletV4Data_init w.seqno (some w.walletId) (some w.publicKey) w.plugins).bind fun o => (WalletV4Data_serialize mkCell o).map (·.cell)
   | .hl w => (HighloadWalletData_init (some w.walletId) w.lastCleaned (some w.publicKey) w.oldQueries).bind fun o =>
@@ -499,7 +505,7 @@ def genSer (w : Wr) : Option RCell :=
 def genPar (c : RCell) (kind : String) : Option String :=
   let s : Slice RCell := ⟨c.bits, c.refs⟩
   match kind with
-  | "hu" => some (showOpt showHu (Message.deserializeHashUpd rops c))
+  | "hu" => some (showOpt showHu ((HashUpdate_deserialize rv s).2))
   | "v3" => some (showOpt showV3 ((WalletV3Data_deserialize rv s).2))
   | "v4" => some (showOpt showV4 ((WalletV4Data_deserialize rv s).2))
   | "hl" => some (showOpt showHl ((HighloadWalletData_deserialize rv s).2))
